@@ -679,9 +679,9 @@ async fn handle_task_with_signals<F: Future<Output = tako::Result<TaskResult>>>(
 
     match futures::future::select(event_fut, task_future).await {
         // We have received an early exit command
-        Either::Left((result, fut)) => {
+        Either::Left((result, mut fut)) => {
             // Give the task some time to finish until we kill it forcefully
-            match tokio::time::timeout(Duration::from_secs(1), fut).await {
+            match tokio::time::timeout(Duration::from_secs(1), &mut fut).await {
                 Ok(_) => {
                     // The task has finished gracefully
                     log::debug!("Task {task_id} has ended gracefully after a signal");
@@ -693,6 +693,9 @@ async fn handle_task_with_signals<F: Future<Output = tako::Result<TaskResult>>>(
                         log::error!("Unable to kill process Task {task_id}: {error:?}");
                     } else {
                         log::debug!("Task {task_id} has been killed");
+                        // Let the killed process be reaped and its remaining output be
+                        // forwarded, so that a streamed output is properly closed
+                        let _ = tokio::time::timeout(Duration::from_secs(1), &mut fut).await;
                     }
                     result
                 }
